@@ -11,7 +11,7 @@ From Orbit Require Export Corr.Common Model.Transport Model.Wire Model.Current.
     without write access to the shared model tree.  For every length prefix below 2^63 (the
     only ones the C20 driver generates; 2^63 and above is C12's subject) both values of the
     switch compute the same result. *)
-Definition c20_unsigned_cmp : bool := false.
+Definition c20_unsigned_cmp : bool := frame_unsigned_cmp_current.
 
 (** * Small decidable helpers *)
 
